@@ -131,6 +131,10 @@ func (b *bmpClient) loop() {
 			break
 		}
 		atomic.StoreInt64(&b.uptime, time.Now().Unix())
+		// What was sent belongs to the monitoring session: a station keeps nothing
+		// of an earlier session, so nothing sent there may suppress a route (or
+		// license a withdrawal) on this one.
+		b.ribout = newribout()
 
 		if func() bool {
 			defer func() {
